@@ -366,7 +366,7 @@ func rtOne(api rtAPI, rv reflect.Value) (ev rtEvent) {
 	return
 }
 
-const watchdog = 3 * time.Second
+const watchdog = 1500 * time.Millisecond
 
 // rtIsolated runs one round trip in a child process (encode rtchild <api index>) and waits at most the watchdog period.
 func rtIsolated(line []byte, ai int, api rtAPI, c *caseSpec) []byte {
@@ -457,14 +457,20 @@ func rtCases(args []string) {
 			isolate = isolate || kinds[f.K].isolate
 		}
 		var res [][]byte
+		hung := false
 		for ai, api := range rtAPIs {
 			if tagsOnly && api.mode != "tags" {
 				continue
 			}
+			if isolate && hung {
+				continue // one hang per case is enough: the remaining routes of this case are not run (watchdog time)
+			}
 			if isolate {
 				// recursive types: one child process per call under a watchdog; a call that does not return (or kills
 				// the process, e.g. by unbounded recursion) is recorded as an event with hang = true
-				res = append(res, rtIsolated(lines[i], ai, api, &c), mustJSON(map[string]any{"f": c.F, "top": c.Top, "v": c.V, "api": api.name}))
+				ev := rtIsolated(lines[i], ai, api, &c)
+				hung = bytes.Contains(ev, []byte(`"hang":true`))
+				res = append(res, ev, mustJSON(map[string]any{"f": c.F, "top": c.Top, "v": c.V, "api": api.name}))
 				continue
 			}
 			for k := 0; k < reps; k++ {
